@@ -69,3 +69,19 @@ fn poll_expired_timers_loop(timers_cell: &mut TimerWheel, mut poll_events: Vec<P
             due_exactly_popped(timers0, timers@, now),
         decreases timers@.len(),
 //@ endslice
+
+impl Poll {
+//@ slice src/sys.rs / impl Poll / fn poll :: closure 2 props=C01,C02,C20 name=Poll::poll::convert_event
+//@ rw R10 * <<level_triggered.as_ref()>> => <<level_triggered>>
+//@ sig
+/// S1 slice of Poll::poll: the body of the closure that converts one `polling` event into a calloop event (and re-arms
+/// the fd when level-triggering is emulated). The closure parameter `ev` and the captured `self` become parameters;
+/// R10: the captured `Option<Ref<HashMap>>` (borrow of the emulation table) becomes `level_triggered: Option<&HashMap>`.
+fn poll_convert_event(&self, level_triggered: Option<&HashMap<usize, (Raw, polling::Event)>>, ev: polling::Event) -> (r: std::io::Result<PollEvent>)
+//@ spec
+    ensures
+        // C20/C01/C02: the token handed to the loop is exactly the decoding of the key the kernel reported, and the readiness
+        // is exactly what the kernel reported (error never set here)
+        r matches Ok(e) ==> e.token.inner.key() == ev.key && e.readiness.readable == ev.readable && e.readiness.writable == ev.writable && !e.readiness.error,
+//@ endslice
+}
